@@ -8,13 +8,14 @@ from ..lin import Form, Lin
 MANIFEST = {
     'technique': 'homogeneity-degree analysis (D-hom) of the residual functions in the composition vector, must-pass rule "returned composition goes through normalize", '
             "quantity-kind rule for the single-component shortcut, key-covers-inputs rule for the instance caches; symbolic substitution of the callers' argument "
-            "tuples into the residual functions and exponent-vector comparison with modified Raoult's law",
+            "tuples into the residual functions and exponent-vector comparison with modified Raoult's law; bracket rule for the bracketing fallbacks",
     'text': 'Decides for every input: every non-reactive return of solve_Ty/solve_Py/solve_Tx/solve_Px passes the composition through normalize; the residual 1 - '
             'sum(y) (resp. x) is homogeneous of degree 0 in z exactly when every z-derived argument handed to the residual function has degree 0 (otherwise the '
             'result depends on the scale of z); the single-component shortcut returns Tsat for the T-methods and Psat for the P-methods; the per-class instance '
             "cache key contains the chemicals and every attribute of the property package that __new__ reads. With the caller's arguments substituted, the quantity "
             'each of the eight residual functions (plain and reactive) hands to its inner composition solve is z*Psat*gamma*pcf/P for the bubble point and '
-            'z*P*phi/(Psat*pcf) for the dew point, and the inner solves divide by phi(y) resp. gamma(x). Residual magnitudes, T-P inversion, bubble <= dew and '
+            'z*P*phi/(Psat*pcf) for the dew point, and the inner solves divide by phi(y) resp. gamma(x). The fallback brackets are [Tmin, Tmax] from the domain '
+            'call in order and [min Psat(Tmin), max Psat(Tmax)], identically in BubblePoint and DewPoint. Residual magnitudes, T-P inversion, bubble <= dew and '
             'permutation invariance are numerical and not decided.',
 }
 
